@@ -298,7 +298,7 @@ Proof.
       rewrite zb_aset_neq by exact N. exact Hj.
   - (* AWrite *) destruct (live_client i s) as [c|] eqn:E0; [apply live_client_some in E0; destruct E0 as [E Er]|auto with cplC].
     assert (zb i (clients s) = false) as Hz by (unfold zb; rewrite E; exact Er).
-    rewrite Er. destruct (n <? 1); [auto with cplC|]. destruct (c_back c =? 0); [|cauto_cpl].
+    rewrite Er. destruct (n <? 0); [auto with cplC|]. destruct (c_back c =? 0); [|cauto_cpl].
     cbn zeta. set (r := send_result n (next_send n s)).
     pose proof (CplC_io (EvSend i n r false) i r (drop_send s) (or_intror (ex_intro _ n eq_refl)) (CplC_drop_send _ s H)) as K.
     destruct (failed_io r).
